@@ -213,6 +213,16 @@ fn boundary_leg(g: &Grammar, all_scalars: bool) -> Acc {
         texts.push(format!("@k: {l};\nx"));
         texts.push(format!("@k: [{l}];\n@j: {{a: {l}}};\nx"));
     }
+    // built-ins applied to a literal inside metadata (a front end that folds constant metadata must
+    // not panic on the out-of-range ones)
+    for d in &ds {
+        for f in ["int", "float", "dec", "datetime", "date_time", "duration", "week", "day", "hour", "minute", "second", "year", "month", "round", "floor", "fract", "uppercase", "trim", "is_some", "-", "!"] {
+            for pre in ["i", "i-", "f", "d"] {
+                texts.push(format!("@k: {f}({pre}{d});\nx"));
+            }
+            texts.push(format!("@k: [{f}(i{d})];\n@j: {{a: {f}(\"{d}\")}};\nx"));
+        }
+    }
     for d in &ds {
         texts.push(format!("x.{d}"));
         texts.push(format!("x.{d}.{d}"));
